@@ -64,15 +64,22 @@ RULE = ('Hypothesis cases of two kinds.  kind=op (about 85%): a file '
         'files saved as NETCDF3_CLASSIC or NETCDF4, then <=15 steps of '
         'open(i) (pncopen(path, format=\'netcdf\')), close(h) (repeatable), '
         'drop(h) (delete the last reference), collect() (gc.collect()), '
-        'read(h); arguments drawn from the model of live handles; automatic '
+        'read(h), derive(h[, h2]) (any catalogue transformation of an open '
+        'handle, for stack/operators optionally with a second open handle on '
+        'the same file as argument; the in-memory result is kept); arguments drawn from the model of live handles; automatic '
         'GC disabled for the whole case (re-enabled in finally).  Oracle '
         '(c): after every step every handle the model says is open reads '
         'back a snapshot identical to the one taken when the file was '
-        'written.  A worker process that dies is a violation.  Non-trivial: '
+        'written, and every derived result answers the full probe (len and '
+        'isunlimited of every dimension, attributes, dimensions/data/mask of '
+        'every variable, repr) exactly as when it was made - in particular '
+        'after its inputs were closed, dropped or collected.  A worker process that dies is a violation.  Non-trivial: '
         'op cases in which the call completed on a file with >=1 non-empty '
         'variable; histories containing close(A) ... open(B) ... second '
         'close of A (explicit, or by its finaliser after drop/collect) while '
-        'B has not been closed (B live, or dropped but not yet collected) - '
+        'B has not been closed (B live, or dropped but not yet collected), '
+        'or a derived result probed after one of its inputs was closed or '
+        'dropped - the first is '
         'this is also the input class of the known double-close finding.  '
         'Distinct by sha1 of the case spec.')
 ASSUMPTIONS = [
@@ -332,11 +339,18 @@ def hist_cases(draw):
     # model of live handles: [file index, closed?]
     live = []
     steps = []
+    nderived = 0
     n = draw(st.integers(4, 15))
     for _ in range(n):
         ops = ['open', 'open', 'collect']
         if live:
             ops += ['close', 'close', 'drop', 'drop', 'read']
+        openk = [k for k, (_, c) in enumerate(live) if not c]
+        if openk and nderived < 3:
+            # a transformation of an open handle (optionally with a second
+            # open handle on the same file as argument): its result must
+            # survive whatever happens to its inputs afterwards
+            ops += ['derive', 'derive', 'derive']
         if any(c for _, c in live):
             # a closed handle is still referenced: the interesting
             # continuations are another open, then its drop / second close
@@ -350,6 +364,18 @@ def hist_cases(draw):
             steps.append(['open', i])
         elif op == 'collect':
             steps.append(['collect'])
+        elif op == 'derive':
+            k = draw(st.sampled_from(openk))
+            info = O.info_of_spec(files[live[k][0]])
+            stp = O.draw_step(draw, info, weights=TRANSFORM_WEIGHTS,
+                              rot=len(steps) * 7 + nderived)
+            arg = None
+            same = [j for j in openk if j != k and live[j][0] == live[k][0]]
+            if stp['op'] in ('stack', 'binop') and same and \
+                    stp['args']['other'][0] == 'copy' and draw(st.booleans()):
+                arg = draw(st.sampled_from(same))
+            steps.append(['derive', k, stp, arg])
+            nderived += 1
         else:
             k = draw(st.integers(0, len(live) - 1))
             steps.append([op, k])
@@ -625,6 +651,19 @@ def write_raw(fs, path, fmt):
         ds.close()
 
 
+def probe(f):
+    """full structural + content probe of a derived result, through the
+    public interface: len / isunlimited of every dimension, attributes,
+    dimensions / data / mask of every variable (vf.spec.snapshot) and the
+    header dump (repr)"""
+    snap = S.snapshot(f, skip_attrs=VOLATILE)
+    try:
+        text = repr(f)
+    except SystemExit:
+        raise RuntimeError('pncdump called exit()')
+    return snap, text
+
+
 def check_hist(case):
     from PseudoNetCDF import pncopen
     r = Result()
@@ -650,6 +689,8 @@ def check_hist(case):
     #               finalised (they call close() again): first_close_at
     open_garbage = []  # opened_at of handles dropped while open and not yet
     #               collected: they still own a C id and can be hit too
+    derived = []  # dicts: f (in-memory result), probe, op, parents (entries)
+    probed_after_close = False
     hazard = False
     was_gc = gc.isenabled()
     # no finaliser left over from an earlier case may fire inside this one
@@ -685,12 +726,37 @@ def check_hist(case):
                     open_garbage.append(e['opened_at'])
                     r.label('drop-open')
                 e['h'] = None
+                e['dropped'] = True
                 del e
             elif op == 'collect':
                 second_close_of.extend(garbage)
                 gc.collect()
             elif op == 'read':
                 pass
+            elif op == 'derive':
+                e = live[stp[1]]
+                parents = [e]
+                operand = None
+                if stp[3] is not None:
+                    parents.append(live[stp[3]])
+                    operand = live[stp[3]]['h']
+                    r.label('derive:disk-argument')
+                r.label('derive:' + stp[2]['op'])
+                out = None
+                try:
+                    out = O.apply_step(e['h'], stp[2], operand=operand)
+                    pr = probe(out) if hasattr(out, 'variables') else None
+                except (KeyboardInterrupt, SystemExit, MemoryError):
+                    raise
+                except Exception:
+                    # a transformation that does not complete is C01's
+                    # subject
+                    r.label('derive-raised')
+                    pr = None
+                if pr is not None:
+                    derived.append(dict(f=out, probe=pr, op=stp[2]['op'],
+                                        parents=parents, t=t))
+                out = operand = None
             # input class of the anticipated defect: a handle that was
             # closed at time c is closed a second time while a handle opened
             # after c is (model-)open
@@ -725,9 +791,45 @@ def check_hist(case):
                            'on file %d reads different content: %s' % (
                                t, stp, k, e['i'], d), klass=klass)
                     break
+            # closing is local: every derived result still answers the full
+            # probe exactly as it did when it was made, whatever happened to
+            # the files it was derived from
+            for dv in derived:
+                gone = any(pe['closed'] or pe.get('dropped')
+                           for pe in dv['parents'])
+                if gone:
+                    probed_after_close = True
+                dk = '%s/%s' % (dv['op'], 'input-closed' if gone
+                                else 'inputs-open')
+                if hazard:
+                    dk += '/after-second-close'
+                try:
+                    now = probe(dv['f'])
+                except (KeyboardInterrupt, SystemExit, MemoryError):
+                    raise
+                except Exception as ex:
+                    r.fail('derived-result-broken', 'step %d (%s): the '
+                           'result of %s made at step %d can no longer be '
+                           'inspected: %s: %s' % (
+                               t, stp[:2], dv['op'], dv['t'],
+                               type(ex).__name__, str(ex)[:200]),
+                           where=type(ex).__name__, klass=dk)
+                    break
+                d = S.diff_snapshots(dv['probe'][0], now[0])
+                if d is None and dv['probe'][1] != now[1]:
+                    d = 'repr() of the result changed'
+                if d:
+                    r.fail('derived-result-changed', 'step %d (%s): the '
+                           'result of %s made at step %d changed: %s' % (
+                               t, stp[:2], dv['op'], dv['t'], d), klass=dk)
+                    break
             if r.failures:
                 break
-        r.nontrivial = hazard
+        r.nontrivial = hazard or probed_after_close
+        if derived:
+            r.label('hist:derived-results')
+        if probed_after_close:
+            r.label('hist:derived-probed-after-input-close')
         if hazard:
             r.label('hist:second-close-while-other-open')
         else:
@@ -741,7 +843,8 @@ def check_hist(case):
                 except Exception:
                     pass
         live = []
-        e = None
+        derived = []
+        e = dv = pe = None
         gc.collect()
         if was_gc:
             gc.enable()
